@@ -103,7 +103,7 @@ impl HotReloadingData {
         }
     }
 
-    fn update_if_static(&mut self) {
+    pub fn update_if_static(&mut self) {
         if let CacheKind::Static(cache, reloader) = &mut self.cache {
             let cache = BorrowedCache::new(cache, reloader, &self.source);
             run_update(&mut self.to_reload, &mut self.deps, cache);
@@ -132,22 +132,19 @@ impl HotReloadingData {
     pub fn add_asset(&mut self, infos: AssetReloadInfos, unknown: &mut Vec<OwnedDirEntry>) {
         let AssetReloadInfos(key, new_deps, typ) = infos;
 
-        let mut found = false;
+        // The reload itself waits until the queued messages were processed
+        // (see `update_if_static`): other assets that are being registered
+        // may use the same entry.
         unknown.retain(|entry| {
             let used = new_deps.contains_entry(entry);
             if used {
                 log::trace!("New event: {entry:?}");
                 self.to_reload.insert(entry.clone());
-                found = true;
             }
             !used
         });
 
         self.deps.insert_asset(key, new_deps, typ);
-
-        if found {
-            self.update_if_static();
-        }
     }
 
     pub fn clear_local_cache(&mut self) {
